@@ -19,6 +19,7 @@ import (
 func (fr *Frame) call(in ssa.Instruction, c *ssa.CallCommon, st *State, pc Term) []Term {
 	pre := st.clone()
 	res := fr.callInner(in, c, st, pc)
+	fr.restoreUnescaped(in, st, pre)
 	if !fr.top || fr.contract == nil || fr.lastCallee == "" {
 		return res
 	}
@@ -59,6 +60,7 @@ func (fr *Frame) call(in ssa.Instruction, c *ssa.CallCommon, st *State, pc Term)
 				}
 				fr.letTypes[cs.Let] = tv.Typ
 				fr.letSorts[cs.Let] = tv.T.Sort
+				recordLetInfo(fr.vc.fname, cs.Let, tv.T.Sort, tv.Typ)
 				continue
 			}
 			for i, r := range res {
@@ -1157,6 +1159,7 @@ func (fr *Frame) recv(in *ssa.UnOp, st *State, pc Term) {
 		okT := vc.fresh("recvok", SBool)
 		fr.tuples[in] = []Term{ite(okT, v, vc.zero(elem)), okT}
 		vc.chanCount("chrecvs", fr.val(in.X), okT, st)
+		vc.chanCount("chrecvsclosed", fr.val(in.X), not(okT), st)
 		vc.chanLastNamed("chlastrecv", fr.val(in.X), v, okT, st)
 		return
 	}
@@ -1181,6 +1184,7 @@ func (fr *Frame) selectOp(in *ssa.Select, st *State, pc Term) {
 			v := fr.freshTyped("selrecv", elem, st, pc)
 			vc.chanRecvAssume(fr, s.Chan, v, st, and(pc, eq(idx, intLit(int64(i)))))
 			vc.chanCount("chrecvs", fr.val(s.Chan), and(eq(idx, intLit(int64(i))), okT), st)
+			vc.chanCount("chrecvsclosed", fr.val(s.Chan), and(eq(idx, intLit(int64(i))), not(okT)), st)
 			vc.chanLastNamed("chlastrecv", fr.val(s.Chan), v, and(eq(idx, intLit(int64(i))), okT), st)
 			res = append(res, v)
 		} else {
